@@ -493,6 +493,9 @@ func (g *G) anyExpr(depth int, role string) *N {
 	if g.p.ChainW > 0 && g.t.Chance(1, 18) {
 		return g.lonelyNil(depth - 1)
 	}
+	if g.p.ChainW > 0 && g.noBrace == 0 && g.t.Chance(1, 14) {
+		return g.native(depth-1, false)
+	}
 	switch g.t.Pick(6, lw, lw, lw/2, lw/2, lw/2, 2, g.p.ChainW, 2) {
 	case 0:
 		return g.intExpr(depth, role)
@@ -724,6 +727,22 @@ func (g *G) iterLit(depth int) *N {
 	return it
 }
 
+// native: a higher-order prop of Iterable (shipped Pangaea source) with a generated callback.
+func (g *G) native(depth int, needInt bool) *N {
+	name := "reduce"
+	if !needInt {
+		name = []string{"map", "select", "exclude", "all?", "any?", "reduce"}[g.t.Intn(6)]
+	}
+	n := &N{K: KNative, Str: name, A: g.intArr(depth, 0, "native/recv"), Bool: g.t.Chance(1, 2)}
+	if name == "reduce" {
+		n.B = g.funcLit(2, nil, false, true, depth, []string{"acc", "x"})
+		n.C = g.intExpr(depth, "native/kwarg")
+	} else {
+		n.B = g.funcLit(1, nil, false, true, depth, []string{"x"})
+	}
+	return n
+}
+
 // lonelyNil: a lonely scalar step on a nil receiver. The step is skipped (nil), yet its
 // chain argument and arguments are evaluated like those of any other call.
 func (g *G) lonelyNil(depth int) *N {
@@ -832,6 +851,9 @@ func (g *G) reduceChain(depth int, role string) *N {
 		add = '~'
 		g.noFault++
 		defer func() { g.noFault-- }()
+	}
+	if add != '~' && g.noBrace == 0 && g.t.Chance(1, 6) {
+		return g.native(depth, true)
 	}
 	recv := g.intArr(depth, 0, "chain/recv")
 	if add != '~' && g.noBrace == 0 && depth > 0 && g.t.Chance(1, 7) {
